@@ -3,8 +3,10 @@ import MoneroModel.Proofs.AddressForms
 import MoneroModel.Proofs.AddressSpec
 import MoneroModel.Proofs.AddressFormsSpec
 import MoneroModel.Proofs.AddressKAT
+import MoneroModel.Proofs.AddressKAT2
 import MoneroModel.Proofs.Base58Bij
 import MoneroModel.Proofs.Base58Imp
+import MoneroModel.Proofs.Base58Reject
 import MoneroModel.Ref.Keccak
 import MoneroModel.Model.Keys
 import MoneroModel.Proofs.KeysSound
@@ -14,7 +16,10 @@ open Monero Monero.Address
 
 Objects. `Monero.Address.{fromBytes, asBytes, toStr, fromStr, asHex, fromHex, consensusDecode, consensusEncode}`
 (Model/Address.lean) mirror src/util/address.rs as it is now (exact blob length 69 / 77); `Monero.B58` mirrors the
-`base58-monero` crate; `Base58` (Ref/Base58.lean) and `Spec.Address` (Spec/Address.lean) are the by-the-book reference.
+`base58-monero` crate; `Base58` (Ref/Base58.lean) and `Spec.Address.{blob, text, parse, parseText}` (Spec/Address.lean)
+are the by-the-book reference (cryptonote `tools::base58`, cryptonote_basic_impl.cpp). `Spec.Address.{hexOf, parseHex,
+parseConsensus}` are NOT from Monero, which has no hex or consensus form of an address: they are an independent
+restatement, written in this project, of the library's documented hex / consensus form.
 The tag tables are the generated ones of C20. Every theorem holds for EVERY checksum function `H` and EVERY key
 acceptance test `vk`; where a length is needed the hypothesis is `hH : ∀ x, 4 ≤ (H x).length` (true of Keccak-256, see the
 `example` at the end). `WF vk a` describes the addresses the public constructors can build: two accepted 32-byte keys and
@@ -24,8 +29,9 @@ Scope notes. (1) `Address` has public fields and `PublicKey` a public `point`, s
 whose key bytes are not an accepted key; `as_bytes` / `to_string` succeed on it and `from_str (to_string a)` fails. Such
 values are outside `WF` and outside the property ("valid public keys"). (2) Error kinds are not modelled: every `Err(_)`
 is `none`. (3) `&str` input is modelled by its UTF-8 bytes; bytes ≥ 0x80 are not in the base58 / hex alphabets, so every
-non-ASCII text is rejected by the model for that reason, while the executor of the harness answers `err` for byte strings
-that are not UTF-8 without calling the library (they cannot be passed as `&str`). (4) The general theorems are stated for
+text with a non-ASCII byte is rejected by the model for that reason — this is theorem `C12_rejects_non_ascii` (`FromStr`,
+`base58::decode` and `hex::FromHex`) — while the executor of the harness answers `err` for byte strings that are not
+UTF-8 without calling the library (they cannot be passed as `&str`). (4) The general theorems are stated for
 abstract `H`, `vk`; the `*_ed25519` theorems instantiate them with Keccak-256 and the model of `PublicKey::from_slice`,
 which is what the driver executes on the model side (the spec side runs the RFC 8032 reference decoder). -/
 namespace C12
@@ -126,36 +132,102 @@ theorem C12_b58_length (b : Bytes) :
     (Base58.encode b).length = 11 * (b.length / 8) + Base58.encSize (b.length % 8) :=
   Base58.encode_length b.length b rfl
 
-/-- per block: a text block is accepted iff its length is a table entry, all characters are in the alphabet and its
-value is below 256^k; then it decodes to the k big-endian bytes of that value -/
-theorem C12_b58_block (cs : List UInt8) (b : Bytes) :
-    Base58.decodeBlock cs = some b ↔
-      ∃ k ds, Base58.decSize cs.length = some k ∧ Base58.digitsOf cs = some ds ∧ Base58.ofDigits 58 ds < 256 ^ k ∧
-        b = (Base58.toDigits 256 k (Base58.ofDigits 58 ds)).map UInt8.ofNat := by
-  unfold Base58.decodeBlock
+/-- per block, for the CRATE's `decode_block` (`B58.decodeBlock`, Model/Address.lean): a text block is accepted with
+result `(d, k)` iff its length is the table entry of `k` bytes, all its characters are in the alphabet (`ds` are their
+digits) and its value is below 256^k; then `d` is the `[u8; 8]` big-endian form of that value, and the slice
+`d[8 - k..]` which `decode` keeps is the `k` big-endian bytes of the value -/
+theorem C12_b58_block (cs : List UInt8) (d : Bytes) (k : Nat) :
+    B58.decodeBlock cs = some (d, k) ↔
+      ∃ ds, Base58.decSize cs.length = some k ∧ Base58.digitsOf cs = some ds ∧ Base58.ofDigits 58 ds < 256 ^ k ∧
+        d = B58.beBytes 8 (Base58.ofDigits 58 ds) ∧
+        d.drop (8 - k) = (Base58.toDigits 256 k (Base58.ofDigits 58 ds)).map UInt8.ofNat := by
+  rw [B58.decodeBlock_some_iff]
   constructor
-  · intro h
-    cases hk : Base58.decSize cs.length with
-    | none => simp [hk] at h
-    | some k =>
-      cases hd : Base58.digitsOf cs with
-      | none => simp [hk, hd] at h
-      | some ds =>
-        simp only [hk, hd] at h
-        by_cases hlt : Base58.ofDigits 58 ds < 256 ^ k
-        · simp only [hlt, if_true, Option.some.injEq] at h
-          exact ⟨k, ds, rfl, rfl, hlt, h.symm⟩
-        · simp [hlt] at h
-  · rintro ⟨k, ds, hk, hd, hlt, rfl⟩
-    simp [hk, hd, hlt]
+  · rintro ⟨ds, hk, hd, hlt, rfl⟩
+    refine ⟨ds, hk, hd, hlt, rfl, ?_⟩
+    rw [B58.beBytes_drop _ _ (Base58.decSize_some _ _ hk).1, B58.beBytes_eq]
+  · rintro ⟨ds, hk, hd, hlt, he, _⟩
+    exact ⟨ds, hk, hd, hlt, he⟩
 
-/-- an overflowing block is rejected, e.g. `zzzzzzzzzzz` (58^11 − 1 ≥ 2^64), whatever follows -/
-theorem C12_b58_overflow (rest : List UInt8) : Base58.decode (List.replicate 11 122 ++ rest) = none := by
-  have hb : Base58.decodeBlock (List.replicate 11 122) = none := by decide
-  cases rest with
-  | nil => rw [List.append_nil, Base58.decode_le _ (by simp)]; exact hb
-  | cons x xs =>
-    rw [Base58.decode_gt _ (by simp), List.take_left' (by simp), hb]; simp
+/-- per block, refusal by the crate's `decode_block`, exactly: the length is not a table entry, or some character is
+outside the alphabet, or the value does not fit into the `k` bytes of the block (overflow) -/
+theorem C12_b58_block_refused (cs : List UInt8) :
+    B58.decodeBlock cs = none ↔
+      Base58.decSize cs.length = none ∨ (∃ c, c ∈ cs ∧ c ∉ Base58.alphabet) ∨
+      ∃ k ds, Base58.decSize cs.length = some k ∧ Base58.digitsOf cs = some ds ∧ 256 ^ k ≤ Base58.ofDigits 58 ds :=
+  B58.decodeBlock_none_iff cs
+
+/-- a block that `decode_block` refuses, sitting at a block boundary — a full 11-character block anywhere in the text,
+or the last block (at most 11 characters, nothing after it) — makes `base58::decode` refuse the whole text. (A refused
+block is never empty: the empty block is accepted.) -/
+theorem C12_b58_bad_block (pre blk rest : List UInt8) (hp : pre.length % 11 = 0)
+    (hb : blk.length = 11 ∨ (blk.length ≤ 11 ∧ rest = [])) (hbad : B58.decodeBlock blk = none) :
+    B58.decode (pre ++ blk ++ rest) = none := by
+  rw [List.append_assoc]
+  exact B58.decode_append_none (pre.length / 11) pre _ (by omega) (B58.decode_head_none blk rest hb hbad)
+
+/-- overflow, per block: all characters in the alphabet, legal length for `k` bytes, value ≥ 256^k — refused by the
+crate's `decode_block`. This covers the short tail blocks (k < 8, bound `1 << 8k`) as well as the full block (bound 2^64) -/
+theorem C12_b58_block_overflow (cs : List UInt8) (ds : List Nat) (k : Nat) (hk : Base58.decSize cs.length = some k)
+    (hd : Base58.digitsOf cs = some ds) (hov : 256 ^ k ≤ Base58.ofDigits 58 ds) : B58.decodeBlock cs = none :=
+  (C12_b58_block_refused cs).2 (Or.inr (Or.inr ⟨k, ds, hk, hd, hov⟩))
+
+/-- an overflowing block is rejected at EVERY block position, including the short tail block: `blk` (alphabet
+characters, legal length for `k` bytes, value ≥ 256^k) after any number of whole blocks `pre`, followed by anything if it
+is a full block, or by nothing — the text is refused by the crate model, by the reference decoder, and by `FromStr` for
+every checksum function and key test -/
+theorem C12_b58_overflow (pre blk rest : List UInt8) (ds : List Nat) (k : Nat) (hp : pre.length % 11 = 0)
+    (hb : blk.length = 11 ∨ rest = []) (hk : Base58.decSize blk.length = some k)
+    (hd : Base58.digitsOf blk = some ds) (hov : 256 ^ k ≤ Base58.ofDigits 58 ds) :
+    B58.decode (pre ++ blk ++ rest) = none ∧ Base58.decode (pre ++ blk ++ rest) = none ∧
+    fromStr H vk (pre ++ blk ++ rest) = none := by
+  have h : B58.decode (pre ++ blk ++ rest) = none :=
+    C12_b58_bad_block pre blk rest hp (hb.imp id fun e => ⟨B58.decSize_le _ _ hk, e⟩)
+      (C12_b58_block_overflow blk ds k hk hd hov)
+  refine ⟨h, ?_, by rw [fromStr, h]⟩
+  rw [← B58.decode_eq _ _ rfl]; exact h
+
+/-- closed instances, by evaluation of the crate model: the all-`z` full block (58^11 − 1 ≥ 2^64), the all-`z`
+7-character tail block (5 bytes: 58^7 − 1 ≥ 2^40), the 7-character spelling `VtB5VXd` of exactly 2^40 — all refused —
+and `VtB5VXc` (2^40 − 1), the largest accepted 7-character block -/
+theorem C12_b58_overflow_examples :
+    B58.decodeBlock (List.replicate 11 122) = none ∧ B58.decodeBlock (List.replicate 7 122) = none ∧
+    B58.decodeBlock [86, 116, 66, 53, 86, 88, 100] = none ∧
+    B58.decodeBlock [86, 116, 66, 53, 86, 88, 99] = some ([0, 0, 0, 255, 255, 255, 255, 255], 5) := by decide
+
+/-- an address-length text (95 = 8·11 + 7 or 106 = 9·11 + 7 characters) whose 7-character tail is `zzzzzzz` is refused
+by `base58::decode` and by `FromStr`, whatever the checksum function and the key test -/
+theorem C12_b58_overflow_tail (pre : List UInt8) (hp : pre.length = 88 ∨ pre.length = 99) :
+    B58.decode (pre ++ List.replicate 7 122) = none ∧ fromStr H vk (pre ++ List.replicate 7 122) = none := by
+  have h := C12_b58_overflow H vk pre (List.replicate 7 122) [] (List.replicate 7 57) 5 (by omega) (Or.inr rfl)
+    (by decide) (by decide) (by decide)
+  rw [List.append_nil] at h
+  exact ⟨h.1, h.2.2⟩
+
+/-- two different texts never decode to the same bytes (in particular a value has one spelling per block: no
+non-canonical spelling of a tail block is accepted) -/
+theorem C12_b58_decode_injective (s s' : List UInt8) (b : Bytes) (h : B58.decode s = some b)
+    (h' : B58.decode s' = some b) : s = s' :=
+  Option.some.inj (((C12_b58_enc_dec s b).1 h).symm.trans ((C12_b58_enc_dec s' b).1 h'))
+
+-- the hypotheses are satisfiable, and the theorems bite
+example : B58.decodeBlock [49, 50] = some ([0, 0, 0, 0, 0, 0, 0, 1], 1) := by decide
+example : ∃ ds, Base58.decSize [49, 50].length = some 1 ∧ Base58.digitsOf [49, 50] = some ds ∧
+    Base58.ofDigits 58 ds < 256 ^ 1 := ⟨[0, 1], by decide, by decide, by decide⟩
+/-- a refused full block in the middle (after one whole block, before a 2-character tail) -/
+example : B58.decode (List.replicate 11 49 ++ List.replicate 11 122 ++ [49, 49]) = none :=
+  C12_b58_bad_block _ _ _ (by decide) (Or.inl (by decide)) C12_b58_overflow_examples.1
+/-- a refused tail block of an illegal length (4 characters) at the end -/
+example : B58.decode (List.replicate 11 49 ++ [49, 49, 49, 49] ++ []) = none :=
+  C12_b58_bad_block _ _ _ (by decide) (Or.inr ⟨by decide, rfl⟩) (by decide)
+example : B58.decodeBlock (List.replicate 7 122) = none :=
+  C12_b58_block_overflow _ (List.replicate 7 57) 5 (by decide) (by decide) (by decide)
+example : B58.decode (List.replicate 88 49 ++ [86, 116, 66, 53, 86, 88, 100] ++ []) = none :=
+  (C12_b58_overflow (fun _ => []) (fun _ => true) _ _ _ [28, 51, 10, 4, 28, 30, 36] 5 (by decide) (Or.inr rfl)
+    (by decide) (by decide) (by decide)).1
+example : (List.replicate 88 (49 : UInt8)).length = 88 ∨ (List.replicate 88 (49 : UInt8)).length = 99 := Or.inl (by decide)
+example : B58.decode (Base58.encode [0x12, 0x34]) = some [0x12, 0x34] := by
+  rw [(C12_b58_model_eq_ref [] _).2]; exact (C12_b58_dec_enc _).2
 
 /-! ## text -/
 
@@ -222,22 +294,38 @@ theorem C12_hex_blob_canonical (s : List UInt8) (a : Address) (h : fromHex H vk 
   | none => simp [hd] at h
   | some b => simp only [hd] at h; rw [C12_bytes_canonical H vk b a h]
 
-/-! ## hex and consensus forms = the by-the-book forms (G07) -/
+/-! ## hex and consensus forms = an independent restatement of the library's documented forms (G07)
 
-/-- `as_hex` is the lowercase hexadecimal of the by-the-book blob (2·69 = 138 or 2·77 = 154 characters) -/
+`Spec.Address.{hexOf, parseHex, parseConsensus}` are an independent restatement, written in this project, of the library's
+documented hex / consensus form (optional `0x`, either case / one length byte < 128 then the blob) — Monero itself has no
+hex or consensus form of an address; only the blob parser underneath (`Spec.Address.parse`) follows
+cryptonote_basic_impl.cpp. The theorems of this section are equalities of two independently written functions. -/
+
+/-- `as_hex` is `Spec.Address.hexOf` of the by-the-book blob, where `hexOf` (lowercase hexadecimal, two characters per
+byte) is an independent restatement, written in this project, of the library's documented hex form (optional `0x`,
+either case) — Monero itself has no hex or consensus form of an address; only the blob underneath
+(`Spec.Address.blob`, parsed by `Spec.Address.parse`) follows cryptonote_basic_impl.cpp. Its length is 2·69 = 138
+characters, 2·77 = 154 for integrated addresses, for every checksum function with at least four bytes of output -/
 theorem C12_hex_is_spec (a : Address) (hw : WF vk a) :
-    asHex H a = Spec.Address.hexOf (Spec.Address.blob H a.net a.kind a.spend a.view a.pid) := by
+    asHex H a = Spec.Address.hexOf (Spec.Address.blob H a.net a.kind a.spend a.view a.pid) ∧
+    ((∀ x, 4 ≤ (H x).length) → (asHex H a).length = if a.kind = .Integrated then 154 else 138) := by
   have hpid : a.kind ≠ .Integrated → a.pid = [] := fun hk => by simpa [hk] using hw.2.2.2.2
-  rw [asHex, HexM.encode_eq_hexOf, asBytes_eq_blob H a hpid]
+  refine ⟨by rw [asHex, HexM.encode_eq_hexOf, asBytes_eq_blob H a hpid], fun hH => ?_⟩
+  rw [asHex, HexM.encode_length, ((C12_layout H vk a).2 hw hH).2]
+  split <;> rfl
 
-/-- `consensus_encode` is one length byte (69 or 77) followed by the by-the-book blob -/
+/-- `consensus_encode` is one length byte (69 or 77) followed by the by-the-book blob. "One length byte < 128, then the
+blob" is an independent restatement, written in this project, of the library's documented consensus form — Monero itself
+has no hex or consensus form of an address; only the blob (`Spec.Address.blob`) follows cryptonote_basic_impl.cpp -/
 theorem C12_consensus_is_spec (a : Address) (hw : WF vk a) (hH : ∀ x, 4 ≤ (H x).length) :
     consensusEncode H a =
       UInt8.ofNat (if a.kind = .Integrated then 77 else 69) :: Spec.Address.blob H a.net a.kind a.spend a.view a.pid :=
   consensusEncode_eq_spec H vk a hw hH
 
-/-- the model of `hex::FromHex for Address` IS the by-the-book hex parser (optional `0x`, an even number of digits of
-either case, then the by-the-book blob parser), on EVERY input -/
+/-- the model of `hex::FromHex for Address` equals, on EVERY input, `Spec.Address.parseHex`: an independent restatement,
+written in this project, of the library's documented hex form (optional `0x`, an even number of digits of either case,
+then the blob) — Monero itself has no hex or consensus form of an address; only the blob parser underneath
+(`Spec.Address.parse`) follows cryptonote_basic_impl.cpp. An equality of two independently written functions -/
 theorem C12_parse_hex_is_monero (s : List UInt8) (hH : ∀ x, 4 ≤ (H x).length) :
     fromHex H vk s = (Spec.Address.parseHex H vk s).map fun (n, k, sp, v, p) => (⟨n, k, p, sp, v⟩ : Address) := by
   rw [fromHex, HexM.decode_eq_unhexDigits, parseHex_eq]
@@ -245,8 +333,11 @@ theorem C12_parse_hex_is_monero (s : List UInt8) (hH : ∀ x, 4 ≤ (H x).length
   | none => rfl
   | some b => exact C12_parse_is_monero H vk b hH
 
-/-- the model of `Decodable for Address` IS the by-the-book consensus parser (one length byte < 128, that many bytes, the
-by-the-book blob parser), on EVERY input: same acceptance set, same address, same number of bytes consumed -/
+/-- the model of `Decodable for Address` equals, on EVERY input, `Spec.Address.parseConsensus`: an independent
+restatement, written in this project, of the library's documented consensus form (one length byte < 128, then that many
+bytes, the blob) — Monero itself has no hex or consensus form of an address; only the blob parser underneath
+(`Spec.Address.parse`) follows cryptonote_basic_impl.cpp. Same acceptance set, same address, same number of bytes
+consumed -/
 theorem C12_parse_consensus_is_monero (b : Bytes) (hH : ∀ x, 4 ≤ (H x).length) :
     consensusDecode H vk b = (Spec.Address.parseConsensus H vk b).map
       fun ((n, k, sp, v, p), used) => ((⟨n, k, p, sp, v⟩ : Address), b.drop used) :=
@@ -266,16 +357,24 @@ theorem C12_rejects_unknown_tag (b0 : UInt8) (rest : Bytes) (h : ∀ n k, Spec.t
     rw [(C20.C20_reject_others b0 h rest).1] at hn
     exact absurd hn (by simp)
 
-/-- the last four bytes are not the hash of the rest -/
-theorem C12_rejects_checksum (b : Bytes) (h : (H (b.take (b.length - 4))).take 4 ≠ b.drop (b.length - 4)) :
+/-- a blob of one of the two legal lengths whose last four bytes are not the first four of the hash of the rest. (The
+other lengths are refused by the length test, `C12_length_of_accepted`; there the slices below are not what the
+library hashes, so the theorem is stated for 69 / 77 only, where it is about the checksum.) -/
+theorem C12_rejects_checksum (b : Bytes) (hl : b.length = 69 ∨ b.length = 77)
+    (h : (H (b.take (b.length - 4))).take 4 ≠ b.drop (b.length - 4)) :
     fromBytes H vk b = none := by
   cases hf : fromBytes H vk b with
   | none => rfl
   | some a =>
-    obtain ⟨b0, rest, _, _, _, _, _, _, _, hl, hc⟩ := fromBytes_some H vk _ a hf
-    have e : b.length - 4 = bodyLen a.kind := by omega
+    obtain ⟨b0, rest, _, _, _, _, _, _, _, hl', hc⟩ := fromBytes_some H vk _ a hf
+    have e : b.length - 4 = bodyLen a.kind := by rcases hl with hl | hl <;> omega
     rw [e, hc] at h
     exact absurd (List.take_of_length_le (by rw [List.length_drop]; omega)) h
+
+/-- the hypotheses of `C12_rejects_checksum` are jointly satisfiable by a full-length blob: 65 zero bytes, then a
+"checksum" 1,2,3,4 that is not the (constant) hash -/
+example : fromBytes (fun _ => [0, 0, 0, 0]) vk (List.replicate 65 0 ++ [1, 2, 3, 4]) = none :=
+  C12_rejects_checksum _ vk _ (Or.inl (by decide)) (by decide)
 
 /-- one of the two keys is not accepted by `PublicKey::from_slice` -/
 theorem C12_rejects_invalid_key (b : Bytes) (h : vk ((b.drop 1).take 32) = false ∨ vk ((b.drop 33).take 32) = false) :
@@ -322,16 +421,46 @@ theorem C12_rejects_trailing (b ext : Bytes) (a : Address) (h : fromBytes H vk b
     have : ext.length = 0 := by omega
     exact absurd (List.eq_nil_of_length_eq_zero this) hne
 
-/-- unknown tags, wrong checksums, invalid keys, short input and trailing data are all rejected -/
+/-- a text with a character outside the 58-character alphabet, ANYWHERE in it (any block, any position), is refused by
+the crate's `base58::decode`, hence by `FromStr` — whatever its length, its other characters, `H` and `vk` -/
+theorem C12_rejects_foreign_char (s : List UInt8) (h : ∃ c, c ∈ s ∧ c ∉ Base58.alphabet) :
+    B58.decode s = none ∧ fromStr H vk s = none := by
+  have hd := B58.decode_foreign s.length s rfl h
+  exact ⟨hd, by rw [fromStr, hd]⟩
+
+/-- scope note (3): a text that contains a byte ≥ 0x80 (every non-ASCII `&str` does: all bytes of a multi-byte UTF-8
+sequence are ≥ 0x80) is refused by `FromStr`, by `base58::decode` and by `hex::FromHex`: such a byte is neither in the
+base58 alphabet nor a hexadecimal digit, and `strip_prefix("0x")` removes only the two ASCII characters `0`, `x` -/
+theorem C12_rejects_non_ascii (s : List UInt8) (h : ∃ c ∈ s, 128 ≤ c.toNat) :
+    fromStr H vk s = none ∧ B58.decode s = none ∧ fromHex H vk s = none := by
+  obtain ⟨c, hc, h128⟩ := h
+  have hf := C12_rejects_foreign_char H vk s
+    ⟨c, hc, fun hm => absurd (Base58.alphabet_ascii c hm) (Nat.not_lt.2 h128)⟩
+  refine ⟨hf.2, hf.1, ?_⟩
+  rw [fromHex, HexM.decode_none_of_bad_char _ ⟨c, mem_stripPrefix0x s c hc h128, HexM.val_none_of_ge c h128⟩]
+
+/-- the hypotheses are satisfiable: an address-length text with an `l` (not in the alphabet) in its fifth block; `é` in
+UTF-8; a hex text with prefix `0x` and a non-ASCII byte -/
+example : ∃ c, c ∈ List.replicate 50 (49 : UInt8) ++ 108 :: List.replicate 44 49 ∧ c ∉ Base58.alphabet :=
+  ⟨108, by decide, by decide⟩
+example : fromStr H vk (List.replicate 50 49 ++ 108 :: List.replicate 44 49) = none :=
+  (C12_rejects_foreign_char H vk _ ⟨108, by decide, by decide⟩).2
+example : ∃ c ∈ ([0xC3, 0xA9] : List UInt8), 128 ≤ c.toNat := ⟨0xC3, by decide, by decide⟩
+example : fromHex H vk [48, 120, 49, 50, 0xC3, 0xA9] = none :=
+  (C12_rejects_non_ascii H vk _ ⟨0xC3, by decide, by decide⟩).2.2
+
+/-- unknown tags, wrong checksums, invalid keys, short input, trailing data and texts with a character outside the
+base58 alphabet are all rejected -/
 theorem C12_rejects :
     (∀ (b0 : UInt8) (rest : Bytes), (∀ n k, Spec.tag n k ≠ b0.toNat) → fromBytes H vk (b0 :: rest) = none) ∧
-    (∀ b : Bytes, (H (b.take (b.length - 4))).take 4 ≠ b.drop (b.length - 4) → fromBytes H vk b = none) ∧
+    (∀ b : Bytes, b.length = 69 ∨ b.length = 77 → (H (b.take (b.length - 4))).take 4 ≠ b.drop (b.length - 4) →
+      fromBytes H vk b = none) ∧
     (∀ b : Bytes, vk ((b.drop 1).take 32) = false ∨ vk ((b.drop 33).take 32) = false → fromBytes H vk b = none) ∧
     (∀ b : Bytes, b.length < 69 → fromBytes H vk b = none) ∧
     (∀ (b ext : Bytes) (a : Address), fromBytes H vk b = some a → ext ≠ [] → fromBytes H vk (b ++ ext) = none) ∧
-    (∀ (s : List UInt8), Base58.decode s = none → fromStr H vk s = none) :=
+    (∀ (s : List UInt8), (∃ c, c ∈ s ∧ c ∉ Base58.alphabet) → fromStr H vk s = none) :=
   ⟨C12_rejects_unknown_tag H vk, C12_rejects_checksum H vk, C12_rejects_invalid_key H vk, C12_rejects_short H vk,
-   C12_rejects_trailing H vk, fun s h => by rw [fromStr, B58.decode_eq _ _ rfl, h]⟩
+   C12_rejects_trailing H vk, fun s h => (C12_rejects_foreign_char H vk s h).2⟩
 
 /-! ## instantiation: Keccak-256 checksum, Ed25519 key acceptance as the library computes it (G07) -/
 
@@ -366,14 +495,18 @@ theorem C12_parse_text_is_monero_ed25519 (s : List UInt8) :
         fun (n, k, sp, v, p) => (⟨n, k, p, sp, v⟩ : Address) := by
   rw [refKey_eq]; exact C12_parse_text_is_monero _ _ s keccak_len
 
-/-- the same for `hex::FromHex` -/
+/-- the same for `hex::FromHex` (`Spec.Address.parseHex` is an independent restatement, written in this project, of the
+library's documented hex form — optional `0x`, either case — not a Monero format; only `Spec.Address.parse` underneath
+follows cryptonote_basic_impl.cpp) -/
 theorem C12_parse_hex_is_monero_ed25519 (s : List UInt8) :
     fromHex Keccak.keccak256 Keys.publicAccept s =
       (Spec.Address.parseHex Keccak.keccak256 (fun k => (Ed.decodePt k).isSome) s).map
         fun (n, k, sp, v, p) => (⟨n, k, p, sp, v⟩ : Address) := by
   rw [refKey_eq]; exact C12_parse_hex_is_monero _ _ s keccak_len
 
-/-- the same for `Decodable` -/
+/-- the same for `Decodable` (`Spec.Address.parseConsensus` is an independent restatement, written in this project, of
+the library's documented consensus form — one length byte < 128 then the blob — not a Monero format; only
+`Spec.Address.parse` underneath follows cryptonote_basic_impl.cpp) -/
 theorem C12_parse_consensus_is_monero_ed25519 (b : Bytes) :
     consensusDecode Keccak.keccak256 Keys.publicAccept b =
       (Spec.Address.parseConsensus Keccak.keccak256 (fun k => (Ed.decodePt k).isSome) b).map
@@ -398,21 +531,40 @@ private theorem publicAccept_eval :
 
 /-- "invalid or non-canonical keys rejected", stated on the real key test: a blob whose spend-key field (bytes 1..33) or
 view-key field (bytes 33..65) has its y coordinate ≥ p (either sign bit) is rejected, whatever its tag, length and
-checksum -/
+checksum. For blobs shorter than 65 bytes the key slices are short and the conclusion already follows from the length
+test (`C12_rejects_short`); the theorem bites on full-length blobs, see the 69-byte examples below -/
 theorem C12_rejects_noncanonical_key_ed25519 (b : Bytes)
     (h : Ed.p ≤ Ed.leNat ((b.drop 1).take 32) % 2 ^ 255 ∨ Ed.p ≤ Ed.leNat ((b.drop 33).take 32) % 2 ^ 255) :
     fromBytes Keccak.keccak256 Keys.publicAccept b = none :=
   C12_rejects_invalid_key _ _ b (h.imp (publicAccept_noncanonical_y _) (publicAccept_noncanonical_y _))
 
+/-- the hypothesis is satisfiable by a 32-byte key field: y = p, the smallest of the 19 non-canonical values in
+[p, 2^255) -/
+example : Ed.p ≤ Ed.leNat (Ed.toBytesLE Ed.p 32) % 2 ^ 255 := by decide +kernel
+/-- … and by FULL-LENGTH blobs: mainnet standard tag 18, a key field with y = p, zeros elsewhere (69 bytes). The
+rejection is obtained from the theorem, not by evaluating Keccak or the key test. -/
+example : (18 :: (Ed.toBytesLE Ed.p 32 ++ List.replicate 36 0) : Bytes).length = 69 := by decide +kernel
+example : fromBytes Keccak.keccak256 Keys.publicAccept (18 :: (Ed.toBytesLE Ed.p 32 ++ List.replicate 36 0)) = none :=
+  C12_rejects_noncanonical_key_ed25519 _ (Or.inl (by decide +kernel))
+example : (18 :: (Ed.toBytesLE 1 32 ++ (Ed.toBytesLE (Ed.p + 2 ^ 255) 32 ++ List.replicate 4 0)) : Bytes).length = 69 := by
+  decide +kernel
+example : fromBytes Keccak.keccak256 Keys.publicAccept
+    (18 :: (Ed.toBytesLE 1 32 ++ (Ed.toBytesLE (Ed.p + 2 ^ 255) 32 ++ List.replicate 4 0))) = none :=
+  C12_rejects_noncanonical_key_ed25519 _ (Or.inr (by decide +kernel))
+
 /-- … a key field that is not the encoding of a curve point at all (RFC 8032 decoding fails: wrong length because the
-blob is short, y ≥ p, x² has no root, or x = 0 with the sign bit) -/
+blob is short, y ≥ p, x² has no root, or x = 0 with the sign bit). For blobs shorter than 65 bytes the key slices are
+short (`decodePt` fails by length) and the conclusion already follows from the length test (`C12_rejects_short`); the
+content is in the full-length case -/
 theorem C12_rejects_undecodable_key_ed25519 (b : Bytes)
     (h : Ed.decodePt ((b.drop 1).take 32) = none ∨ Ed.decodePt ((b.drop 33).take 32) = none) :
     fromBytes Keccak.keccak256 Keys.publicAccept b = none :=
   C12_rejects_invalid_key _ _ b
     (h.imp (fun h => by rw [Keys.publicAccept_eq_ref, h]; rfl) (fun h => by rw [Keys.publicAccept_eq_ref, h]; rfl))
 
-/-- the two negative-zero encodings (x = 0 with the sign bit set: y = 1 and y = p − 1) in either key field -/
+/-- the two negative-zero encodings (x = 0 with the sign bit set: y = 1 and y = p − 1) in either key field. (For blobs
+shorter than 65 bytes the key slices are short — the hypothesis `h` can then hold only for the spend field of a blob of
+at least 33 bytes — and the conclusion already follows from the length test, `C12_rejects_short`.) -/
 theorem C12_rejects_negative_zero_key_ed25519 (b : Bytes) (k : Bytes)
     (hk : k = Ed.toBytesLE (1 + 2 ^ 255) 32 ∨ k = Ed.toBytesLE (Ed.p - 1 + 2 ^ 255) 32)
     (h : (b.drop 1).take 32 = k ∨ (b.drop 33).take 32 = k) :
@@ -436,7 +588,8 @@ theorem C12_accepted_ed25519 (b : Bytes) (a : Address)
     C12_bytes_canonical _ _ b a h, hl, ?_⟩
   apply Classical.byContradiction
   intro hne
-  have := C12_rejects_checksum Keccak.keccak256 Keys.publicAccept b (fun e => hne e.symm)
+  have hl' : b.length = 69 ∨ b.length = 77 := by rw [hl]; split <;> simp
+  have := C12_rejects_checksum Keccak.keccak256 Keys.publicAccept b hl' (fun e => hne e.symm)
   rw [this] at h
   exact absurd h (by simp)
 
@@ -503,6 +656,16 @@ theorem C12_known_answer_donation :
         (AddressKAT.str "44AFFq5kSiGBoZ4NMDwYtN18obc8AemS33DBLWs3H7otXft3XjrpDtQGv7SqSsaBYBb98uNbr2VBBEt7f2wfn3RVGQBEP3A")
       = some AddressKAT.donationAddr :=
   known_answer _ _ _ AddressKAT.donation_blob AddressKAT.donation_b58 AddressKAT.donation_wf
+/-- Known answer, sub-address: the sub-address vector of the library's own test-suite (tag 42; Proofs/AddressKAT2.lean). -/
+theorem C12_known_answer_subaddress :
+    Spec.Address.text Keccak.keccak256 .Mainnet .SubAddress AddressKAT.subAddr.spend AddressKAT.subAddr.view []
+      = AddressKAT.str "8AW7SotwFrqfAKnibspuuhfowW4g3asvpQvdrTmPcpNr2GmXPtBBSxUPZQATAt8Vw2hiX9GDyxB4tMNgHjwt8qYsCeFDVvn" ∧
+    toStr Keccak.keccak256 AddressKAT.subAddr
+      = some (AddressKAT.str "8AW7SotwFrqfAKnibspuuhfowW4g3asvpQvdrTmPcpNr2GmXPtBBSxUPZQATAt8Vw2hiX9GDyxB4tMNgHjwt8qYsCeFDVvn") ∧
+    fromStr Keccak.keccak256 Keys.publicAccept
+        (AddressKAT.str "8AW7SotwFrqfAKnibspuuhfowW4g3asvpQvdrTmPcpNr2GmXPtBBSxUPZQATAt8Vw2hiX9GDyxB4tMNgHjwt8qYsCeFDVvn")
+      = some AddressKAT.subAddr :=
+  known_answer _ _ _ AddressKAT.sub_blob AddressKAT.sub_b58 AddressKAT.sub_wf
 -- end G07 known-answer block
 
 /-! ## the hypotheses are satisfiable -/
